@@ -1487,6 +1487,30 @@ def classify_panic(case, detail):
     return None
 
 
+def table_fault_present(case, kind):
+    """is the injected table fault still in the store as generated?  (a later fault may have deleted the definition)"""
+    crit = (case.get("store_struct") or {}).get("criteria")
+    if crit is None:
+        try:
+            import tomllib
+            crit = tomllib.loads(case["store"]["audits"]).get("criteria", {})
+            crit = {k: {"implies": ([v["implies"]] if isinstance(v.get("implies"), str) else v.get("implies", []))}
+                    for k, v in crit.items() if isinstance(v, dict)}
+        except Exception:
+            return True
+    if kind == "table-shadow":
+        return any(b in crit for b in gen.BUILTINS)
+    # cycle among the local definitions
+    def reach(a, seen):
+        for b in crit.get(a, {}).get("implies", []) or []:
+            if b in seen:
+                return True
+            if b in crit and reach(b, seen | {b}):
+                return True
+        return False
+    return any(reach(a, {a}) for a in crit)
+
+
 class C15(SimpleSpec):
     pid = "C15"
     model_imports = ["Base", "Extracted", "Criteria", "Validate"]
@@ -1587,7 +1611,7 @@ class C15(SimpleSpec):
             for f in faults:
                 if f["kind"] == "dangling" and used(f["site"]):
                     out.append(f"a reference to an undefined criterion ({f['site']}) was not refused and reached the resolver")
-                if f["kind"] in ("table-cycle", "table-shadow"):
+                if f["kind"] in ("table-cycle", "table-shadow") and table_fault_present(case, f["kind"]):
                     out.append(f"an ill-formed criteria table ({f['kind']}) was accepted")
         return out
 
